@@ -466,7 +466,7 @@ Print Assumptions C11_history_messages_build.
     A definition the parser has entered keeps the lazy shape of that level; a fresh one gets the expanded shape when an
     ancestor's flattened help builds it.  [h_build_bin_names (S f) (h_set_names bin mid (h_build_recursive (S f) h))] is
     what [build()] makes of the subcommand [h] of a built level with bin name [bin] and mid string [mid]. ---- *)
-From ClapModel Require Help.UsageModel Help.HelpFlatten Help.HelpFlattenShape.
+From ClapModel Require Help.UsageModel Help.HelpFlatten Help.HelpFlattenShape Help.HelpFlattenLevel.
 
 (** equal when [disable_help_subcommand] is set (or the level has no subcommands, or is built already): the two
     builds of the level are the same record, so every rendering of every definition agrees *)
@@ -510,3 +510,13 @@ Theorem C11_flatten_help_shape_satisfiable :
                   /\ UsageModel.usage_pieces hl' = Some [[112%N; 32%N] ++ UsageModel.s_help; HelpFlattenShape.s_cmd_lazy]).
 Proof. exact (conj HelpFlattenShape.shape_disabled_satisfiable HelpFlattenShape.shape_lines_satisfiable). Qed.
 Print Assumptions C11_flatten_help_shape_satisfiable.
+
+(** different otherwise, in exactly one place: the lazy and the eager build of an unbuilt level whose help subcommand is
+    not disabled are the same record up to the LAST subcommand, the generated [help] in its two shapes *)
+Theorem C11_flatten_help_shape_builds : forall c : UsageModel.hcmd, HelpFlattenShape.help_sub_off c = false ->
+  exists P S0 A,
+    HelpFlatten.h_build_self_x false c = HelpFlattenLevel.mk_level P (S0 ++ [UsageModel.h_help_subcommand P]) A
+    /\ HelpFlatten.h_build_self_x true c = HelpFlattenLevel.mk_level P (S0 ++ [HelpFlatten.h_help_subcommand_expanded P]) A
+    /\ map HelpFlattenShape.nh S0 = map HelpFlattenShape.nh (UsageModel.hc_subs P).
+Proof. exact HelpFlattenLevel.shape_builds. Qed.
+Print Assumptions C11_flatten_help_shape_builds.
